@@ -196,6 +196,7 @@ def write_dbs(case, base):
             argv += ["-I", d]
         for f in incs:
             argv += ["-include", f]
+        argv += list(tu.get("extra_args", []))
         argv += ["-c", path]
         by.setdefault(tu["platform"], []).append({"file": path, "directory": os.path.dirname(path), "arguments": argv})
     os.makedirs(os.path.join(base, "dbs"), exist_ok=True)
